@@ -401,6 +401,24 @@ func (e *emitter) deferStmt(ind int, fn *Fn, st *Stmt, tag string, code int) {
 		if st.Loop == lMethod {
 			e.line(ind, "t%d := &T{d + %d}", n, n+20)
 		}
+		// deferred builtins registered several times by the same statement: an
+		// earlier-registered (hence later-run) defer prints the state they leave
+		switch st.Loop {
+		case lDelete:
+			e.line(ind, "m%d := map[int]int{0: 10, 1: 11, 2: 12, 3: 13, 7: 17}", n)
+			e.line(ind, "defer func() { fmt.Println(\"defer %s map\", len(m%d), m%d) }()", tag, n, n)
+		case lCopy:
+			e.line(ind, "dst%d, src%d := make([]int, 8), [][]int{{1, 2}, {3, 4}, {5, 6}}", n, n)
+			e.line(ind, "defer func() { fmt.Println(\"defer %s dst\", dst%d) }()", tag, n)
+		case lClose:
+			e.line(ind, "chs%d := []chan int{make(chan int), make(chan int), make(chan int)}", n)
+			e.line(ind, "defer func() {")
+			e.line(ind+1, "for k := 0; k < %d; k++ {", st.LoopN)
+			e.line(ind+2, "_, ok := <-chs%d[k]", n)
+			e.line(ind+2, "fmt.Println(\"defer %s closed\", !ok)", tag)
+			e.line(ind+1, "}")
+			e.line(ind, "}()")
+		}
 		e.line(ind, "for i := 0; i < %d; i++ {", st.LoopN)
 		switch st.Loop {
 		case lLitCap:
@@ -423,6 +441,14 @@ func (e *emitter) deferStmt(ind int, fn *Fn, st *Stmt, tag string, code int) {
 			e.line(ind+1, "}(i)")
 		case lMethod:
 			e.line(ind+1, "defer t%d.pm(%q, i)", n, tag)
+		case lDelete:
+			e.line(ind+1, "defer delete(m%d, i)", n)
+		case lCopy:
+			e.line(ind+1, "defer copy(dst%d[2*i:], src%d[i])", n, n)
+		case lClose:
+			e.line(ind+1, "defer close(chs%d[i])", n)
+		case lBin:
+			e.line(ind+1, "defer fmt.Println(\"defer %s loop-bin\", i)", tag)
 		}
 		e.line(ind, "}")
 	}
